@@ -132,10 +132,27 @@ def make_array(kind, n, seed):
         return np.zeros((n, n), dtype=complex) + (seed % 3)
     if kind == 'scratch':
         return np.zeros((24, 24), dtype=complex)
+    if kind == 'specw2':     # wavelengths whose nm -> um -> nm round trip is inexact
+        return np.array([410.0, 470.0, 570.0, 690.0, 700.0, 830.0, 910.0]) + (seed % 2) * 0.3
+    if kind == 'wv3b':
+        return np.array([410.0, 570.0, 700.0])
+    if kind == 'bmask':      # boolean sub-aperture buffer, off-centre disc whose position depends on the seed
+        r, c = np.indices((n, n))
+        r0, c0 = n // 2 + (seed % 3) - 1, n // 2 + ((seed // 3) % 3) - 1
+        return ((r - r0) ** 2 + (c - c0) ** 2) <= (n / 2 - 1.6) ** 2
+    if kind == 'rho':
+        r, c = np.indices((n, n))
+        return np.hypot(r - n / 2 + 0.5 * (seed % 2), c - n / 2 - 1.0) / (n / 2)
+    if kind == 'theta':
+        r, c = np.indices((n, n))
+        return np.arctan2(-(r - n / 2 + 0.5 * (seed % 2)), c - n / 2 - 1.0) + 0.3
     raise ValueError(kind)
 
 
 # ------------------------------------------------------------------ history generation
+REFILL = ('amp', 'opd', 'mask', 'bmask', 'img', 'cplx', 'rho', 'theta')
+
+
 class Gen:
     def __init__(self, rng, n):
         self.rng = rng
@@ -199,7 +216,7 @@ class Gen:
         w = self.wave(lambda t: t['ptype'] == 'pupil' and not (no_tilt and t['tilt']))
         if w is not None and self.rng.random() < 0.7:
             return w
-        w0 = self.emit({'f': 'wave', 'wl': self.rng.randint(0, 1)}, {'t': 'W', 'ptype': 'none', 'tilt': False})
+        w0 = self.new_wave(tilt=False if no_tilt else None)
         cands = self.find(lambda t: t['t'] == 'P' and t['cls'] == 'Pupil' and t['arrmask'] and not t.get('rescaled')
                           and not (no_tilt and t['tilt']))
         p = self.rng.choice(cands) if cands and self.rng.random() < 0.8 else None
@@ -207,22 +224,134 @@ class Gen:
             p = self.new_plane('Pupil')
             while not self.regs[p]['arrmask']:
                 p = self.new_plane('Pupil')
-        return self.emit({'f': 'mul', 'p': p, 'w': w0}, {'t': 'W', 'ptype': 'pupil', 'tilt': self.regs[p]['tilt']})
+        return self.emit({'f': 'mul', 'p': p, 'w': w0},
+                         {'t': 'W', 'ptype': 'pupil', 'tilt': self.regs[p]['tilt'] or self.regs[w0]['tilt']})
 
     def fit_changes(self, p):
         t = self.regs[p]
         return t['cls'] != 'Image' and t['arrmask'] and t['opd'] is not None
 
+    def poke(self, r):
+        """the caller writes into its own array: two samples, or a refill with other contents of the same kind"""
+        t = self.regs[r]
+        if t['kind'] in REFILL and self.rng.random() < 0.5:
+            self.seed += 1
+            self.emit({'f': 'poke', 'r': r, 'mode': 'refill', 'kind': t['kind'], 'kn': t['n'],
+                       'seed': self.seed + self.rng.randint(0, 50)}, {'t': 'N'})
+        else:
+            self.emit({'f': 'poke', 'r': r}, {'t': 'N'})
+
+    def new_wave(self, tilt=None):
+        rng = self.rng
+        if tilt is None:
+            tilt = rng.random() < 0.15
+        st = {'f': 'wave', 'wl': rng.randint(0, 1)}
+        if tilt:
+            st['tilt'] = [rng.choice([1, -2, 3]), rng.choice([0, 2, -1])]
+        return self.emit(st, {'t': 'W', 'ptype': 'none', 'tilt': bool(tilt)})
+
+    def mul_tilt(self, w):
+        rng = self.rng
+        wt = self.regs[w]
+        st = {'f': 'mul_tilt', 'w': w, 'kind': 'Disp' if rng.random() < 0.25 else 'Tilt',
+              'x': rng.choice([1, 2, -3, 4]), 'y': rng.choice([0, 1, -2])}
+        return self.emit(st, {'t': 'W', 'ptype': wt['ptype'], 'tilt': True})
+
+    def poke_attr(self, p, attr=None):
+        """the caller writes through plane.amplitude / plane.opd / plane.mask in place"""
+        rng = self.rng
+        t = self.regs[p]
+        ok = []
+        if t['amp'] is not None and (t['amp'] < 0 or not self.regs[t['amp']]['frozen']):
+            ok.append(0)
+        if t['opd'] is not None and (t['opd'] < 0 or not self.regs[t['opd']]['frozen']):
+            ok.append(1)
+        if t['arrmask'] and t['nseg'] == 1 and not t.get('rescaled'):
+            ok.append(2)
+        if attr is None:
+            if not ok:
+                return None
+            attr = rng.choice(ok)
+        elif attr not in ok:
+            return None
+        self.seed += 1
+        return self.emit({'f': 'poke_attr', 'p': p, 'attr': attr, 'seed': self.seed}, {'t': 'N'})
+
+    def resample(self, p):
+        ty = dict(self.regs[p])
+        ty['opd'] = -1 if ty['opd'] is not None else None
+        ty['amp'] = -1 if ty['amp'] is not None else None
+        ty['mfloat'] = False
+        ty['rescaled'] = True
+        return self.emit({'f': 'resample', 'p': p, 'factor': self.rng.choice(['2', '1/2', '1/2'])}, ty)
+
+    def memo_fn(self):
+        """functions whose natural optimisation is a memo: zernike bases/fits, meshes and shapes"""
+        rng = self.rng
+        n = self.n
+        res = {'t': 'A', 'kind': 'res', 'n': 0, 'frozen': False}
+        nm = rng.choice(['zernike_basis', 'zernike_basis', 'zernike_fit', 'zernike_fit', 'zernike_remove', 'zernike_compose',
+                         'zernike_coordinates', 'mesh', 'rectangle', 'circle', 'circle', 'hexagon'])
+        modes = rng.choice([[1, 2, 3, 4], [2, 3, 4, 5, 6], [4, 2, 7, 3]])
+        if nm == 'zernike_basis':
+            self.emit({'f': 'fn', 'name': nm, 'args': [self.arr(rng.choice(['bmask', 'bmask', 'mask']))], 'modes': modes}, res)
+        elif nm in ('zernike_fit', 'zernike_remove'):
+            args = [self.arr('opd'), self.arr(rng.choice(['bmask', 'mask']))]
+            if rng.random() < 0.5:
+                args += [self.arr('rho'), self.arr('theta')]
+            self.emit({'f': 'fn', 'name': nm, 'args': args, 'modes': modes, 'normalize': rng.random() < 0.7}, res)
+        elif nm == 'zernike_compose':
+            args = [self.arr(rng.choice(['bmask', 'mask']))]
+            if rng.random() < 0.5:
+                args += [self.arr('rho'), self.arr('theta')]
+            self.emit({'f': 'fn', 'name': nm, 'args': args, 'coeffs': [0.0, 1e-8, -2e-8, 5e-9]}, res)
+        elif nm == 'zernike_coordinates':
+            self.emit({'f': 'fn', 'name': nm, 'args': [self.arr(rng.choice(['bmask', 'mask']))]}, {'t': 'N'})
+        else:
+            shape = rng.choice([[n, n], [n, n], [n, n + 2]])
+            shift = rng.choice([[0, 0], [0, 0], [1, -2], [2, 1]])
+            st = {'f': 'fn', 'name': nm, 'args': [], 'shape': shape, 'shift': shift}
+            if nm == 'mesh':
+                st['angle'] = rng.choice([0, 0, 30])
+            elif nm == 'rectangle':
+                st.update(w=rng.choice([3, 4]), h=rng.choice([2, 5]), angle=rng.choice([0, 0, 30]))
+            else:
+                st['r'] = rng.choice([2, 2.5, 3])
+            self.emit(st, {'t': 'N'} if nm == 'mesh' else res)
+
+    def new_ops(self):
+        rng = self.rng
+        x = rng.random()
+        if x < 0.25:
+            w = self.wave(lambda t: True)
+            if w is None or rng.random() < 0.3:
+                w = self.pupil_wave() if rng.random() < 0.6 else self.new_wave()
+            self.mul_tilt(w)
+        elif x < 0.45:
+            cands = self.find(lambda t: t['t'] == 'P' and not t.get('rescaled'))
+            if cands:
+                self.poke_attr(rng.choice(cands))
+        elif x < 0.55:
+            cands = self.find(lambda t: t['t'] == 'P' and t['mfloat'] and t['arrmask'] and t['cls'] != 'Image')
+            if cands:
+                self.resample(rng.choice(cands))
+        elif x < 0.6:
+            self.new_wave(tilt=True)
+        else:
+            self.memo_fn()
+
     def step(self):
         rng = self.rng
         n = self.n
+        if rng.random() < 0.14:
+            return self.new_ops()
         x = rng.random()
         if x < 0.05:
             self.arr(rng.choice(['amp', 'opd', 'mask', 'img', 'cplx']), fresh=True)
         elif x < 0.09:
             cands = self.find(lambda t: t['t'] == 'A' and not t['frozen'])
             if cands:
-                self.emit({'f': 'poke', 'r': rng.choice(cands)}, {'t': 'N'})
+                self.poke(rng.choice(cands))
         elif x < 0.14:
             self.new_plane()
         elif x < 0.20:
@@ -286,7 +415,7 @@ class Gen:
             need = {'Pupil': ('none', 'pupil'), 'Plane': ('none',), 'Image': ('none', 'image')}[pt['cls']]
             w = self.wave(lambda t: t['ptype'] in need)
             if w is None or rng.random() < 0.3:
-                w = self.emit({'f': 'wave', 'wl': rng.randint(0, 1)}, {'t': 'W', 'ptype': 'none', 'tilt': False})
+                w = self.new_wave()
             wt = self.regs[w]
             ptype = {'Pupil': 'pupil', 'Image': 'image', 'Plane': wt['ptype']}[pt['cls']]
             self.emit({'f': 'mul', 'p': p, 'w': w}, {'t': 'W', 'ptype': ptype, 'tilt': wt['tilt'] or pt['tilt']})
@@ -436,6 +565,13 @@ def generate(rng, tier):
         yield gen_poison(rng)
     for k in range(nd):
         yield gen_confluence(rng)
+    nu = 16 if tier == 'quick' else 100
+    for k in range(nu):
+        yield gen_plane_updates(rng)
+    for k in range(nu):
+        yield gen_tilt_reuse(rng)
+    for k in range(40 if tier == 'quick' else 200):
+        yield gen_memo(rng, ['zbasis', 'zfit', 'resample', 'sample', 'shapes'][k % 5])
 
 
 def gen_poison(rng):
@@ -456,6 +592,189 @@ def gen_poison(rng):
         if rng.random() < 0.4:
             g.emit({'f': 'poke', 'r': a}, {'t': 'N'})
     return {'op': 'hist', 'n': n, 'steps': g.steps, 'fresh': 'all', 'directed': 'poison'}
+
+
+def gen_plane_updates(rng):
+    """directed: one plane used (multiplied, propagated) at repeated wavelengths while its amplitude, OPD and mask are
+    updated between uses - by setter assignment and by in-place writes - in every order, with tilt fits, copies and
+    resamples in between; every use is compared with the same call on a plane rebuilt from the current public state"""
+    g = Gen(rng, rng.choice([6, 8]))
+    seg = rng.random() < 0.25
+    amp = g.arr('amp', frozen=rng.random() < 0.4, fresh=True)
+    opd = g.arr('opd', frozen=rng.random() < 0.3, fresh=True)
+    mask = g.arr('mask3' if seg else 'mask', fresh=True) if (seg or rng.random() < 0.6) else None
+    p = g.emit({'f': 'plane', 'cls': 'Pupil', 'amp': amp, 'opd': opd, 'mask': mask, 'nseg': 2 if seg else 1},
+               {'t': 'P', 'cls': 'Pupil', 'nseg': 2 if seg else 1, 'opd': opd, 'amp': amp, 'mfloat': True, 'tilt': False,
+                'arrmask': True})
+    waves = [g.emit({'f': 'wave', 'wl': k}, {'t': 'W', 'ptype': 'none', 'tilt': False}) for k in (0, 1)]
+
+    def use(pl):
+        w = g.emit({'f': 'mul', 'p': pl, 'w': rng.choice(waves[:1] * 3 + waves[1:])},
+                   {'t': 'W', 'ptype': 'pupil', 'tilt': g.regs[pl]['tilt']})
+        if rng.random() < 0.4:
+            osamp = rng.choice([1, 2])
+            g.emit({'f': 'prop_dft', 'w': w, 'shape': g.n // osamp, 'os': osamp}, {'t': 'W', 'ptype': 'image', 'tilt': False})
+        elif rng.random() < 0.3:
+            g.emit({'f': 'wfield', 'w': w, 'intensity': False}, {'t': 'A', 'kind': 'res', 'n': 0, 'frozen': False})
+
+    use(p)
+    for _ in range(rng.randint(4, 9)):
+        x = rng.random()
+        t = g.regs[p]
+        if x < 0.2:
+            a = g.arr('amp', fresh=rng.random() < 0.7)
+            g.emit({'f': 'set_amp', 'p': p, 'a': a}, {'t': 'N'})
+            t['amp'] = a
+        elif x < 0.35:
+            a = g.arr('opd', frozen=False if rng.random() < 0.6 else None, fresh=rng.random() < 0.7)
+            g.emit({'f': 'set_opd', 'p': p, 'a': a}, {'t': 'N'})
+            t['opd'] = a
+        elif x < 0.6:
+            g.poke_attr(p)
+        elif x < 0.7:
+            r = t['amp'] if rng.random() < 0.5 else t['opd']
+            if r is not None and r >= 0 and not g.regs[r]['frozen']:
+                g.poke(r)
+        elif x < 0.8:
+            opd_r = t['opd']
+            if t['nseg'] > 1 or not (opd_r is not None and opd_r >= 0 and g.regs[opd_r]['frozen']):
+                g.emit({'f': 'fit_tilt', 'p': p, 'inplace': True}, {'t': 'alias', 'of': p})
+                t['tilt'] = True
+                if t['nseg'] > 1:
+                    t['opd'] = -1
+        elif x < 0.9:
+            ty = dict(t)
+            ty['opd'] = -1
+            ty['amp'] = -1
+            if rng.random() < 0.5:
+                q = g.emit({'f': 'copy', 'p': p}, ty)
+            else:
+                ty['tilt'] = True
+                q = g.emit({'f': 'fit_tilt', 'p': p, 'inplace': False}, ty)
+            use(q)
+            if rng.random() < 0.5:
+                g.poke_attr(q)
+                use(q)
+        else:
+            g.resample(p)
+        use(p)
+    return {'op': 'hist', 'n': g.n, 'steps': g.steps, 'fresh': 'all', 'directed': 'plane-updates'}
+
+
+def gen_tilt_reuse(rng):
+    """directed: a wavefront that already carries tilt (Wavefront(tilt=) and/or a tilt-fitted pupil) is multiplied by several
+    Tilt / DispersiveTilt planes and re-used (re-propagated, multiplied again) afterwards"""
+    g = Gen(rng, rng.choice([6, 8]))
+    w = g.new_wave(tilt=rng.random() < 0.5)
+    amp = g.arr('amp', fresh=True)
+    opd = g.arr('opd', frozen=False, fresh=True)
+    seg = rng.random() < 0.3
+    mask = g.arr('mask3', fresh=True) if seg else None
+    p = g.emit({'f': 'plane', 'cls': 'Pupil', 'amp': amp, 'opd': opd, 'mask': mask, 'nseg': 2 if seg else 1},
+               {'t': 'P', 'cls': 'Pupil', 'nseg': 2 if seg else 1, 'opd': opd, 'amp': amp, 'mfloat': True, 'tilt': False,
+                'arrmask': True})
+    if rng.random() < 0.7:
+        g.emit({'f': 'fit_tilt', 'p': p, 'inplace': True}, {'t': 'alias', 'of': p})
+        g.regs[p]['tilt'] = True
+        if seg:
+            g.regs[p]['opd'] = -1
+    ws = [w]
+    if rng.random() < 0.3:
+        ws.append(g.mul_tilt(w))
+    wp = g.emit({'f': 'mul', 'p': p, 'w': rng.choice(ws)}, {'t': 'W', 'ptype': 'pupil', 'tilt': g.regs[p]['tilt'] or g.regs[w]['tilt']})
+    ws.append(wp)
+    for _ in range(rng.randint(3, 7)):
+        x = rng.random()
+        src = wp if rng.random() < 0.7 else rng.choice(ws)
+        if x < 0.55:
+            ws.append(g.mul_tilt(src))
+        elif x < 0.85:
+            cand = [v for v in ws if g.regs[v]['ptype'] == 'pupil']
+            v = rng.choice(cand)
+            osamp = rng.choice([1, 2])
+            g.emit({'f': 'prop_dft', 'w': v, 'shape': g.n // osamp, 'os': osamp}, {'t': 'W', 'ptype': 'image', 'tilt': False})
+        else:
+            ws.append(g.emit({'f': 'mul', 'p': p, 'w': w}, {'t': 'W', 'ptype': 'pupil', 'tilt': True}))
+    return {'op': 'hist', 'n': g.n, 'steps': g.steps, 'fresh': 'all', 'directed': 'tilt-reuse'}
+
+
+def gen_memo(rng, kind=None):
+    """directed: 2-6 calls of memo-prone functions in one process with one argument varied at a time and caller buffers
+    refilled in place between the calls (zernike basis/fit/remove with default and supplied coordinates, Plane.resample
+    after in-place edits, Spectrum.sample in a foreign unit then native, meshes and shapes on a repeated array shape)"""
+    g = Gen(rng, rng.choice([6, 8]))
+    n = g.n
+    res = {'t': 'A', 'kind': 'res', 'n': 0, 'frozen': False}
+    kind = kind or rng.choice(['zbasis', 'zfit', 'resample', 'sample', 'shapes'])
+    if kind == 'zbasis':
+        m = g.arr('bmask', frozen=False, fresh=True)
+        modes = rng.choice([[1, 2, 3, 4], [2, 3, 4, 5, 6]])
+        for _ in range(rng.randint(2, 4)):
+            g.emit({'f': 'fn', 'name': rng.choice(['zernike_basis', 'zernike_basis', 'zernike_coordinates']), 'args': [m], 'modes': modes},
+                   res if False else {'t': 'N'})
+            g.seed += 1
+            g.emit({'f': 'poke', 'r': m, 'mode': 'refill', 'kind': 'bmask', 'kn': n, 'seed': g.seed + rng.randint(0, 8)}, {'t': 'N'})
+        g.emit({'f': 'fn', 'name': 'zernike_basis', 'args': [m], 'modes': modes}, res)
+    elif kind == 'zfit':
+        m = g.arr(rng.choice(['bmask', 'mask']), fresh=True)
+        o = g.arr('opd', frozen=False, fresh=True)
+        rho, th = g.arr('rho', fresh=True), g.arr('theta', fresh=True)
+        modes = rng.choice([[1, 2, 3, 4], [4, 2, 7, 3]])
+        norm = rng.random() < 0.7
+        for _ in range(rng.randint(3, 6)):
+            nm = rng.choice(['zernike_fit', 'zernike_fit', 'zernike_remove'])
+            args = [o, m] + ([rho, th] if rng.random() < 0.5 else [])
+            g.emit({'f': 'fn', 'name': nm, 'args': args, 'modes': modes, 'normalize': norm}, res)
+            if rng.random() < 0.3:
+                g.poke(o)
+    elif kind == 'resample':
+        amp = g.arr('amp', frozen=False, fresh=True)
+        opd = g.arr('opd', frozen=False, fresh=True)
+        p = g.emit({'f': 'plane', 'cls': rng.choice(['Pupil', 'Plane']), 'amp': amp, 'opd': opd, 'mask': None, 'nseg': 1},
+                   {'t': 'P', 'cls': 'Pupil', 'nseg': 1, 'opd': opd, 'amp': amp, 'mfloat': True, 'tilt': False, 'arrmask': True})
+        for _ in range(rng.randint(2, 4)):
+            g.emit({'f': 'resample', 'p': p, 'factor': '1/2'}, {'t': 'P', 'cls': 'Pupil', 'nseg': 1, 'opd': -1, 'amp': -1,
+                                                                 'mfloat': False, 'tilt': False, 'arrmask': True, 'rescaled': True})
+            x = rng.random()
+            if x < 0.4:
+                g.poke_attr(p, rng.choice([0, 1]))
+            elif x < 0.6:
+                g.poke(rng.choice([amp, opd]))
+            elif x < 0.8:
+                g.emit({'f': 'fit_tilt', 'p': p, 'inplace': True}, {'t': 'alias', 'of': p})
+            else:
+                q = g.emit({'f': 'copy', 'p': p}, {'t': 'P', 'cls': 'Pupil', 'nseg': 1, 'opd': -1, 'amp': -1, 'mfloat': True,
+                                                   'tilt': False, 'arrmask': True})
+                g.poke_attr(q, 1)
+                g.emit({'f': 'resample', 'p': q, 'factor': '1/2'}, {'t': 'N'})
+        g.emit({'f': 'resample', 'p': p, 'factor': '1/2'}, {'t': 'N'})
+    elif kind == 'sample':
+        w = g.emit({'f': 'arr', 'kind': 'specw2', 'n': n, 'seed': rng.randint(0, 9), 'frozen': rng.random() < 0.5},
+                   {'t': 'A', 'kind': 'specw2', 'n': n, 'frozen': False})
+        v = g.arr('specv', fresh=True)
+        s = g.emit({'f': 'spec', 'wave': w, 'value': v, 'flux': False}, {'t': 'S', 'unit': 'nm', 'flux': False})
+        x = g.emit({'f': 'arr', 'kind': 'wv3b', 'n': n, 'seed': 0, 'frozen': True}, {'t': 'A', 'kind': 'wv3b', 'n': n, 'frozen': True})
+        cube = g.arr('cube', fresh=True)
+        for _ in range(rng.randint(2, 5)):
+            if rng.random() < 0.6:
+                g.emit({'f': 'fn', 'name': 'sample', 'args': [s, x], 'unit': rng.choice(['um', 'nm', 'angstrom', 'nm'])}, res)
+            else:
+                g.emit({'f': 'fn', 'name': 'collect_charge', 'args': [cube, x, s], 'qe': 'spec', 'unit': rng.choice(['um', 'nm'])}, res)
+        g.emit({'f': 'fn', 'name': 'sample', 'args': [s, x], 'unit': 'nm'}, res)
+    else:
+        shape = rng.choice([[n, n], [n, n + 2]])
+        for _ in range(rng.randint(4, 9)):
+            nm = rng.choice(['mesh', 'rectangle', 'rectangle', 'circle', 'circle', 'hexagon'])
+            shift = rng.choice([[0, 0], [0, 0], [1, -2], [2, 1]])
+            st = {'f': 'fn', 'name': nm, 'args': [], 'shape': shape, 'shift': shift}
+            if nm == 'mesh':
+                st['angle'] = rng.choice([0, 0, 30])
+            elif nm == 'rectangle':
+                st.update(w=rng.choice([3, 4]), h=rng.choice([2, 5]), angle=rng.choice([0, 0, 0, 30]))
+            else:
+                st['r'] = rng.choice([2, 2.5, 3])
+            g.emit(st, {'t': 'N'} if nm == 'mesh' else res)
+    return {'op': 'hist', 'n': n, 'steps': g.steps, 'fresh': 'all', 'directed': 'memo-' + kind}
 
 
 def gen_confluence(rng):
@@ -493,6 +812,8 @@ def nontrivial(c):
 FN_CODES = {'adc': 101, 'collect_charge': 102, 'collect_charge_bayer': 103, 'pixel': 104, 'pixelate': 105,
             'charge_diffusion': 106, 'jitter': 107, 'smear': 108, 'util_rescale': 109, 'rebin': 110, 'shot_noise': 111,
             'read_noise': 112, 'dark_current': 113, 'power_spectrum': 114, 'sample': 115, 'normalize_power': 116,
+            'zernike_basis': 117, 'zernike_fit': 118, 'zernike_remove': 119, 'zernike_compose': 120, 'zernike_coordinates': 121,
+            'mesh': 122, 'rectangle': 123, 'circle': 124, 'hexagon': 125,
             'smear_random': 201, 'cosmic_rays': 202}
 
 
@@ -528,7 +849,13 @@ def encode(c):
         elif f == 'rescale':
             out += [8, s['p']]
         elif f == 'wave':
-            out += [9]
+            out += [9] + ([1, 1, 1] if s.get('tilt') else [0])
+        elif f == 'poke_attr':
+            out += [24, s['p'], s['attr']]
+        elif f == 'mul_tilt':
+            out += [25, s['w'], 1, 2]
+        elif f == 'resample':
+            out += [8, s['p']]
         elif f == 'mul':
             out += [10, s['p'], s['w']]
         elif f == 'prop_dft':
@@ -592,7 +919,20 @@ def L():
 
 
 def tilt_xy(t):
-    return (float(t.x), float(t.y))
+    """plain description of an entry of a tilt list (lentil.Tilt or lentil.DispersiveTilt)"""
+    lentil = L()
+    if isinstance(t, lentil.DispersiveTilt):
+        return ('D', tuple(float(v) for v in np.asarray(t.trace).ravel()), tuple(float(v) for v in np.asarray(t.dispersion).ravel()))
+    if isinstance(t, lentil.Tilt):
+        return ('T', float(t.x), float(t.y))
+    return ('?', type(t).__name__)
+
+
+def mk_tilt(d):
+    lentil = L()
+    if d[0] == 'D':
+        return lentil.DispersiveTilt(trace=list(d[1]), dispersion=list(d[2]))
+    return lentil.Tilt(x=d[2], y=d[1])      # Tilt(x, y) stores self.x = y, self.y = x
 
 
 def describe(x):
@@ -639,14 +979,14 @@ def rebuild(d):
             kw['diameter'] = p['diameter']
         q = cls(**kw)
         q.opd.setflags(write=p['_opd_w'])
-        q.tilt = [lentil.Tilt(x=ty, y=tx) for (tx, ty) in p['tilt']]
+        q.tilt = [mk_tilt(t) for t in p['tilt']]
         return q
     if k == 'W':
         w = d[1]
         q = lentil.Wavefront.empty(wavelength=w['wl'], pixelscale=w['ps'], diameter=w['diameter'], focal_length=w['fl'],
                                    shape=w['shape'], ptype=w['ptype'])
         q.data = [lentil.field.Field(data=np.array(fd, copy=True), pixelscale=ps, offset=off,
-                                     tilt=[lentil.Tilt(x=ty, y=tx) for (tx, ty) in tl])
+                                     tilt=[mk_tilt(t) for t in tl])
                   for (fd, off, ps, tl) in w['fields']]
         return q
     if k == 'S':
@@ -696,9 +1036,33 @@ def call_step(s, args, n):
     f = s['f']
     if f == 'poke':
         a = args['r']
-        a.flat[0] = a.flat[0] + 1
-        a.flat[-1] = a.flat[-1] * 2 + 1
+        if s.get('mode') == 'refill':     # the caller refills its buffer in place with other contents of the same kind
+            a[...] = make_array(s['kind'], s['kn'], s['seed'])
+        else:
+            d = 1 if a.dtype.kind in 'biu' or float(np.max(np.abs(a))) > 1e-3 else 1e-8
+            a.flat[0] = a.flat[0] + d
+            a.flat[-1] = a.flat[-1] * 2 + d
         return None, [a]
+    if f == 'poke_attr':
+        pl = args['p']
+        a = [pl.amplitude, pl.opd, pl.mask][s['attr']]
+        if s['attr'] == 2:
+            # keep the mask binary and its bounding box: switch off one interior sample of the support
+            idx = np.argwhere(a != 0)
+            lo, hi = idx.min(axis=0), idx.max(axis=0)
+            inner = [tuple(i) for i in idx if all(lo[k] < i[k] < hi[k] for k in range(-2, 0))]
+            a[inner[s['seed'] % len(inner)]] = 0
+        else:
+            a[...] = a * 0.5 + (1e-9 if s['attr'] == 1 else 0.25) * (1 + s['seed'] % 3)
+        return None, [a]
+    if f == 'mul_tilt':
+        if s['kind'] == 'Disp':
+            tp = lentil.DispersiveTilt(trace=[0.5, 0.0], dispersion=[0.05 * s['x'], 6e-7])
+        else:
+            tp = lentil.Tilt(x=s['x'] * 1e-6, y=s['y'] * 1e-6)
+        return args['w'] * tp, []
+    if f == 'resample':
+        return args['p'].resample(DX * float(Fraction(s['factor']))), []
     if f == 'plane':
         cls = getattr(lentil, s['cls'])
         kw = {}
@@ -727,6 +1091,8 @@ def call_step(s, args, n):
     if f == 'rescale':
         return args['p'].rescale(float(Fraction(s['scale']))), []
     if f == 'wave':
+        if s.get('tilt'):
+            return lentil.Wavefront(WLS[s['wl']], tilt=[s['tilt'][0] * 1e-6, s['tilt'][1] * 1e-6]), []
         return lentil.Wavefront(WLS[s['wl']]), []
     if f == 'mul':
         return args['w'] * args['p'], []
@@ -756,7 +1122,7 @@ def call_step(s, args, n):
             return D.adc(a[0], gain, saturation_capacity=s['sat'], dtype=s['dtype']), []
         if nm == 'collect_charge':
             qe = 0.8 if s['qe'] == 'scalar' else a[2]
-            return D.collect_charge(a[0], a[1], qe), []
+            return D.collect_charge(a[0], a[1], qe, waveunit=s.get('unit', 'nm')), []
         if nm == 'collect_charge_bayer':
             return D.collect_charge_bayer(a[0], a[1], a[2], 0.5, a[2], 'RGGB', oversample=1), []
         if nm == 'pixel':
@@ -785,6 +1151,27 @@ def call_step(s, args, n):
             return lentil.power_spectrum(a[0], pixelscale=DX, rms=1e-8, half_power_freq=5, exp=3, seed=s['seed']), []
         if nm == 'sample':
             return a[0].sample(a[1], waveunit=s['unit']), []
+        if nm == 'zernike_basis':
+            return lentil.zernike_basis(a[0], s['modes']), []
+        if nm == 'zernike_fit':
+            kw = {} if len(a) < 4 else dict(rho=a[2], theta=a[3])
+            return lentil.zernike_fit(a[0], a[1], s['modes'], normalize=s.get('normalize', True), **kw), []
+        if nm == 'zernike_remove':
+            kw = {} if len(a) < 4 else dict(rho=a[2], theta=a[3])
+            return lentil.zernike_remove(a[0], a[1], s['modes'], **kw), []
+        if nm == 'zernike_compose':
+            kw = {} if len(a) < 3 else dict(rho=a[1], theta=a[2])
+            return lentil.zernike_compose(a[0], s['coeffs'], **kw), []
+        if nm == 'zernike_coordinates':
+            return lentil.zernike_coordinates(a[0]), []
+        if nm == 'mesh':
+            return lentil.helper.mesh(tuple(s['shape']), shift=tuple(s['shift']), angle=s['angle']), []
+        if nm == 'rectangle':
+            return lentil.rectangle(tuple(s['shape']), s['w'], s['h'], shift=tuple(s['shift']), angle=s['angle']), []
+        if nm == 'circle':
+            return lentil.circle(tuple(s['shape']), s['r'], shift=tuple(s['shift'])), []
+        if nm == 'hexagon':
+            return lentil.hexagon(tuple(s['shape']), s['r'], shift=tuple(s['shift'])), []
         if nm == 'smear_random':
             return lentil.smear(a[0], 2.0), []
         if nm == 'cosmic_rays':
@@ -810,7 +1197,7 @@ def call_step(s, args, n):
     raise ValueError(f)
 
 
-ARGKEYS = {'poke': ['r'], 'plane': ['amp', 'opd', 'mask'], 'set_opd': ['p', 'a'], 'set_amp': ['p', 'a'], 'fit_tilt': ['p'],
+ARGKEYS = {'poke_attr': ['p'], 'mul_tilt': ['w'], 'resample': ['p'], 'poke': ['r'], 'plane': ['amp', 'opd', 'mask'], 'set_opd': ['p', 'a'], 'set_amp': ['p', 'a'], 'fit_tilt': ['p'],
            'copy': ['p'], 'rescale': ['p'], 'wave': [], 'mul': ['p', 'w'], 'prop_dft': ['w'], 'prop_fft': ['w', 'scratch'],
            'insert': ['w', 'out'], 'wfield': ['w'], 'dft2': ['a', 'out'], 'spec': ['wave', 'value'], 'spec_scalar': ['s'],
            'spec_bin': ['s1', 's2'], 'spec_to': ['s'], 'spec_trim': ['s'], 'spec_resample': ['s', 'wave']}
@@ -907,6 +1294,31 @@ def fresh_call(s, argdesc, n, gseed):
                 pass
             _zy = None
     return new_interpreter_call(s, argdesc, n, gseed)
+
+
+def forked_call(s, argdesc, n, gseed=None):
+    """repeat a call in a fork of THIS process: the child sees every piece of hidden state the history has built up so
+    far (caches, memos, the global generator), and the history itself is not perturbed by the repetition"""
+    sys.stdout.flush()
+    sys.stderr.flush()
+    r, w = os.pipe()
+    pid = os.fork()
+    if pid == 0:
+        try:
+            os.close(r)
+            try:
+                data = pickle.dumps(run_call(s, argdesc, n, gseed))
+            except BaseException as e:
+                data = pickle.dumps(('harness-error', repr(e)))
+            with os.fdopen(w, 'wb') as fh:
+                fh.write(data)
+        finally:
+            os._exit(0)
+    os.close(w)
+    with os.fdopen(r, 'rb') as fh:
+        data = fh.read()
+    os.waitpid(pid, 0)
+    return pickle.loads(data)
 
 
 NEWSRC = r'''
@@ -1075,6 +1487,8 @@ def run_hist(c):
         f = s['f']
         if f == 'poke':
             doc_bufs = [tr.buf_of(args['r'])[0]]
+        elif f == 'poke_attr':
+            doc_bufs = [tr.buf_of([args['p'].amplitude, args['p'].opd, args['p'].mask][s['attr']])[0]]
         elif f == 'fit_tilt' and s['inplace']:
             doc_bufs = [tr.buf_of(args['p'].opd)[0]]
             doc_objs = [tr.obj_of(args['p'])[0]]
@@ -1112,11 +1526,25 @@ def run_hist(c):
             rec['res'] = ('A', None, [b])
             regs.append(res)
         elif isinstance(res, tuple):
+            for x in res:            # e.g. mesh, zernike_coordinates: the returned arrays are the caller's from now on
+                if isinstance(x, np.ndarray):
+                    tr.buf_of(x)
             rec['res'] = ('N', None, [])
             regs.append(None)
         else:
             oi, new = tr.obj_of(res)
             rec['res'] = ('O', oi, [tr.buf_of(a)[0] for a in tr.slots(res)], isinstance(res, lentil.Wavefront))
+            if new and isinstance(res, lentil.Wavefront):
+                # tilt lists are mutable state of the fields: does the result share a list with another object?
+                others = set()
+                for o, _ in tr.objs:
+                    if o is res:
+                        continue
+                    if isinstance(o, lentil.Wavefront):
+                        others.update(id(fl.tilt) for fl in o.data)
+                    elif isinstance(o, lentil.Plane):
+                        others.add(id(o.tilt))
+                rec['tilt_alias'] = any(id(fl.tilt) in others for fl in res.data)
             regs.append(res)
         changed, ochanged = tr.scan()
         # newly registered buffers/objects are not "changed"
@@ -1134,13 +1562,13 @@ def run_hist(c):
         else:
             mine = ('err', st.split(':')[-1] if not ro else 'ValueError', ro)
         if not rand:
-            rep = run_call(s, argdesc, n)
+            rep = forked_call(s, argdesc, n)
+            if rep[0] == 'harness-error':
+                raise RuntimeError('forked repeat: ' + rep[1])
             if not same_outcome(mine, rep):
                 msgs.append('repeating the call on equal arguments gives a different result')
             if seeded:
-                saved = np.random.get_state()
-                rep2 = run_call(s, argdesc, n, global_seed=777 + t)
-                np.random.set_state(saved)
+                rep2 = forked_call(s, argdesc, n, 777 + t)
                 if not same_outcome(mine, rep2):
                     msgs.append('seeded call gives a different result after re-seeding the global generator')
             if fresh_mode == 'all':
@@ -1308,6 +1736,9 @@ def compare(c, impl, model):
                 return what + f'an array the model does not know (impl buffer {b}) changed'
             if a2m[b] not in m['writes']:
                 return what + f'implementation wrote model buffer {a2m[b]}; the model predicts writes {m["writes"]}'
+        if r.get('tilt_alias'):
+            return what + ('a field of the result shares its tilt LIST object with another wavefront/plane; the model says '
+                           'every product gets a new list (tilt = self.tilt + other.tilt)')
         if r['rng'] and not m['rng']:
             return what + 'the global generator moved; the model says this operation does not touch it'
         for o in r['ochanged']:
